@@ -315,7 +315,23 @@ pub fn install_quiet_panic_hook() {
             let (prop, tier) = PROCESS_INFO.lock().map(|g| g.clone()).unwrap_or_default();
             let case = CURRENT_CASE.with(|c| c.borrow().clone());
             if in_subject && !prop.is_empty() {
+                // several workers may get here at once: only the first one reports (the others wait for its exit)
+                static REPORTING: std::sync::atomic::AtomicBool = std::sync::atomic::AtomicBool::new(false);
+                if REPORTING.swap(true, std::sync::atomic::Ordering::SeqCst) {
+                    loop {
+                        std::thread::sleep(std::time::Duration::from_secs(3600));
+                    }
+                }
                 let dir = std::env::var("VERIF_DIR").unwrap_or_else(|_| "/verif".to_string());
+                if let Ok(summary) = std::env::var("TVC_ND_CHILD") {
+                    // second-profile run: report through the summary file the parent run is waiting for
+                    if !summary.is_empty() && tier != "replay" {
+                        let (cj, key) = case.clone().unwrap_or(("{\"kind\": \"abort\"}".to_string(), "(no case recorded)".to_string()));
+                        let esc = |s: &str| s.replace('\\', "\\\\").replace('"', "\\\"").replace('\n', " ");
+                        let _ = std::fs::write(&summary, format!("{{\"property\": \"{prop}\", \"states\": 1, \"transitions\": 1, \"families\": 0, \"completed\": false, \"distinct\": 0, \"wall_s\": 0.0, \"violation_kinds\": {{\"process-abort\": 1}}, \"machinery_errors\": [], \"violations\": [{{\"kind\": \"process-abort\", \"key\": \"{}\", \"case\": {cj}, \"detail\": \"{}\"}}]}}", esc(&key), esc(&format!("{msg} @ {loc}"))));
+                        std::process::exit(1);
+                    }
+                }
                 let _ = std::fs::create_dir_all(format!("{dir}/replays/{prop}"));
                 let path = format!("{dir}/replays/{prop}/abort.json");
                 let (cj, key) = case.unwrap_or(("{\"kind\": \"abort\"}".to_string(), "(no case recorded)".to_string()));
